@@ -191,6 +191,15 @@ func (p *poller) Poll(timeoutMs int) (n int, err error) {
 			continue
 		}
 
+		// EPOLLHUP and EPOLLERR are reported whether or not they were asked for
+		// and may come without EPOLLIN/EPOLLOUT (e.g. the last writer of a FIFO
+		// goes away). Treat them as readiness of every armed direction so that
+		// the pending operation completes (with EOF or the socket error) instead
+		// of staying armed forever.
+		if events&PollerEvent(syscall.EPOLLHUP|syscall.EPOLLERR) != 0 {
+			events |= PollerReadEvent | PollerWriteEvent
+		}
+
 		if events&slot.Events&PollerReadEvent == PollerReadEvent {
 			// TODO this errors should be reported
 			_ = p.DelRead(slot)
